@@ -118,7 +118,7 @@ pub fn gen(ctx: &mut Ctx) {
         let toks: Vec<String> = cfg.split(' ').filter(|t| !t.starts_with("sd=") && !t.starts_with("now=")).map(|s| s.to_string()).collect();
         cfg = toks.join(" ");
         let sd = *ctx.rng.pick(&[1u32, 1_500_000_000, 1_600_000_000, 1_699_999_999]);
-        let mut extra = format!(" sd={} now=1700000000", sd);
+        let mut extra = format!(" sd={} now=1700000000{}", sd, if ctx.rng.chance(1, 2) { " sdlast" } else { "" });
         let nown = ctx.rng.below(6);
         for k in 0..nown {
             let u = *ctx.rng.pick(&users);
